@@ -169,11 +169,67 @@ def gen_idle_after_history(rngs):
     return res
 
 
+def gen_probe_blackhole(rngs):
+    """Closed loop: the path silently discards the MTU probe (and its retransmissions) while everything else is
+    acknowledged; the probe is the only outstanding segment when the retransmission timer fires, is retransmitted
+    (or popped at once with mtu_probe_max_retransmissions = 0), expires, its bytes are cut again - and must then
+    still be sent.  C02-a lived here (RTO mode never left after the probe was given up)."""
+    cases = []
+    for rng in rngs:
+        cfg = vsockgen.gen_config(rng, kind="out")
+        cfg[1] = 1
+        cfg[2] = rng.choice([1500, 1500, 1280, 9000])
+        cfg[4] = 32768
+        cfg[5] = 1048576
+        cfg[6] = rng.choice([0, 1])
+        cfg[7] = 5
+        cfg[8] = 60_000_000_000
+        cfg[10] = rng.choice([0, 1, 1, 2])
+        cfg[14] = 1048576
+        st = {"ts": 1, "now": cfg[16]}
+        ops = ["P", f"W{rng.choice([20000, 30000])},0", "P"]
+        cases.append((cfg, ops, st, rng))
+    for rnd in range(4):
+        lines = ["vsock " + " ".join(str(x) for x in cfg) + " " + " ".join(ops) for cfg, ops, _, _ in cases]
+        outs = L.run_sharded(L.HARNESS, lines)
+        for (cfg, ops, st, rng), out in zip(cases, outs):
+            polls = [t for t in out.split() if t.startswith("P:")]
+            if not polls or polls[-1].count("/") < 4 or not polls[-1].startswith("P:PEND"):
+                continue
+            parts = polls[-1].split("/")[4].split("|")
+            snd_una = int(parts[1].split(",")[0])
+            segs = [] if parts[2] == "-" else [g.split(".") for g in parts[2].split(";")]
+            probe_idx = next((i for i, g in enumerate(segs) if g[6] == "1" and g[3] != "0"), None)
+            st["ts"] += rng.range(1, 5000)
+            if probe_idx is not None and probe_idx > 0:
+                # acknowledge everything before the probe
+                ops += [f"M2,{cfg[12]},{(snd_una + probe_idx - 1) % 65536},1048576,{st['ts']},0,0,-", "P"]
+            elif probe_idx == 0:
+                # the probe alone is outstanding: let the timer fire
+                st["now"] += rng.choice([1_000_000_000, 3_000_000_000])
+                ops += [f"T{st['now']}", "P"]
+            else:
+                sent = [i for i, g in enumerate(segs) if g[3] != "0"]
+                if sent:
+                    ops += [f"M2,{cfg[12]},{(snd_una + sent[-1]) % 65536},1048576,{st['ts']},0,0,-", "P"]
+                else:
+                    st["now"] += rng.choice([40_000_000, 1_000_000_000])
+                    ops += [f"T{st['now']}", "P", "P"]
+    res = []
+    for cfg, ops, st, rng in cases:
+        for _ in range(rng.range(1, 3)):
+            st["now"] += rng.choice([40_000_000, 1_000_000_000, 3_000_000_000])
+            ops += [f"T{st['now']}", "P"]
+        res.append("vsock " + " ".join(str(x) for x in cfg) + " " + " ".join(ops))
+    return res
+
+
 def gen_wake(rng, tier):
     n = 400 if tier == "quick" else 8000
     m = 120 if tier == "quick" else 2000
     return [gen_wake_case(rng.fork("w%d" % i)) for i in range(n)] + \
-        gen_idle_after_history([rng.fork("h%d" % i) for i in range(m)])
+        gen_idle_after_history([rng.fork("h%d" % i) for i in range(m)]) + \
+        gen_probe_blackhole([rng.fork("b%d" % i) for i in range(m // 2)])
 
 
 def gen(rng, tier):
@@ -232,5 +288,6 @@ COMPONENTS = [
     _comp("c02_zero_window_waker", "vsock_zwnd"),
     _comp("c02_timer_ok", "vsock_timer"),
     _comp("c02_rto_armed", "vsock_rto"),
+    _comp("c02_no_silent_stall", "vsock_stall", gen),
     _comp("c02_prompt", "vsock_prompt"),
 ]
